@@ -17,6 +17,7 @@ import (
 	"path/filepath"
 	"sort"
 	"strings"
+	"sync"
 	"time"
 
 	"github.com/opencontainers/go-digest"
@@ -538,6 +539,26 @@ func runOci(mode string, seed int64, tier string, sc *Script) map[string]any {
 					os.MkdirAll(filepath.Join(bp, "x"), 0o755)
 					gerr := c.store.GC(ctx)
 					verdict := "consistent"
+					compare := func() string {
+						verdict := "consistent"
+						s2, err := oci.New(dir)
+						if err != nil {
+							return "cannot-reopen"
+						}
+						for _, q := range [][]string{{"tags", "last=-"}} {
+							if a, b := c.runQuery(c.store, q), c.runQuery(s2, q); a != b {
+								verdict = fmt.Sprintf("tags:live=%s,reopened=%s", a, b)
+							}
+						}
+						for _, n := range u.Nodes {
+							for _, q := range [][]string{{"resolve", fmt.Sprintf("ref=d%d", n.ID)}, {"preds", fmt.Sprint(n.ID)}} {
+								if a, b := c.runQuery(c.store, q), c.runQuery(s2, q); a != b {
+									verdict = fmt.Sprintf("%s-%d:live=%s,reopened=%s", q[0], n.ID, a, b)
+								}
+							}
+						}
+						return verdict
+					}
 					if gerr == nil {
 						verdict = "gc-did-not-fail"
 					} else if s2, err := oci.New(dir); err != nil {
@@ -565,6 +586,17 @@ func runOci(mode string, seed int64, tier string, sc *Script) map[string]any {
 					os.RemoveAll(bp)
 					sc.Op(strings.ReplaceAll(verdict, " ", "_"), "o gcpartial")
 					sc.Count("op:gc-partial")
+					if step%2 == 0 {
+						// a GC whose context turns cancelled at the k-th time anything looks at it
+						// (after the entry check, while the graph is rebuilt, during the sweep):
+						// if it reports failure, the live handle and a store opened on the directory
+						// still tell the same story
+						cd := &countdownCtx{Context: ctx, left: 1 + step%4, done: make(chan struct{})}
+						if cerr := c.store.GC(cd); cerr != nil {
+							sc.Op(strings.ReplaceAll(compare(), " ", "_"), "o gcpartial")
+							sc.Count("op:gc-cancelled-midway")
+						}
+					}
 					// fall through to an ordinary GC, which finishes the sweep
 				}
 				// stray files next to the blobs (an interrupted download, a README): not blobs, and
@@ -869,4 +901,36 @@ func ociCorpus() []ociCorpusCase {
 		out = append(out, ociCorpusCase{u, ops})
 	}
 	return out
+}
+
+// countdownCtx turns cancelled at the left-th time its Err or Done is looked at.
+type countdownCtx struct {
+	context.Context
+	mu   sync.Mutex
+	left int
+	done chan struct{}
+}
+
+func (c *countdownCtx) look() bool {
+	c.mu.Lock()
+	defer c.mu.Unlock()
+	if c.left > 0 {
+		c.left--
+		if c.left == 0 {
+			close(c.done)
+		}
+	}
+	return c.left == 0
+}
+
+func (c *countdownCtx) Err() error {
+	if c.look() {
+		return context.Canceled
+	}
+	return nil
+}
+
+func (c *countdownCtx) Done() <-chan struct{} {
+	c.look()
+	return c.done
 }
